@@ -1,4 +1,6 @@
 import CoercionModel.Model.Secure
+import CoercionModel.Model.SkeletonsMore
+import CoercionModel.Generated.F12
 set_option linter.unusedSimpArgs false
 /-
   C17 — Secure-tagged values never leak through clones or HTML reports.
@@ -159,5 +161,10 @@ def deep : Fs :=
     (.cons false (.map (.cons (.ptr (.struct (.cons true (.leaf 4) .nil))) .nil)) .nil)))) (.cons false (.iface (.struct (.cons true (.leaf 5) .nil))) .nil))
 example : handledF deep = true := by simp [deep, handledF, handledV, handledVs]
 example : secretsF deep = [1, 2, 4, 5] := by simp [deep, secretsF, secretsV, secretsVs, allV]
+
+set_option maxRecDepth 100000 in
+/-- the code this property's model mirrors still has the shape the model was written against (control-flow
+    skeletons regenerated from /repo on every run, Model/SkeletonsMore) -/
+theorem facts_model_skeleton : Generated.F12.secure = SkeletonsMore.secure := by decide +kernel
 
 end Coercion.C17
